@@ -105,9 +105,12 @@ func ZZC07Seq(n int) {
 // ZZC07Pool(n): consecutive requests reuse the pooled context; each sees exactly its own parameters. n = max path length.
 func ZZC07Pool(n int) {
 	r, _ := zzBuild(zzTables[0])
-	if zzv.Choice("group-first", 2) == 1 {
-		// a Group (its own release path for the pooled context) serves first
+	if c := zzv.Choice("group-first", 3); c >= 1 {
+		// a Group (its own release path for the pooled context) serves first, without / with a recovery option
 		g := NewGroup[*hnd](zzCall, &hnd{id: id404}, zzB405, zzBOpt)
+		if c == 2 {
+			g = NewGroup[*hnd](zzCall, &hnd{id: id404}, zzB405, zzBOpt, WithStatusRecovery(500))
+		}
 		gr := g.New("g", NewPathVersion("v", "v1"))
 		gr.Handle("/q/{k}", &hnd{id: 7}, nil, "GET")
 		zzServe(g, zzReq("GET", "/v1/q/1"))
@@ -157,7 +160,11 @@ func ZZC07Par(n int) {
 		b.Handle("/k/{id}", &hnd{id: 9}, nil, "GET")
 		zzv.Par(
 			func() { a.Handle("/n/{x}/m", &hnd{id: 1}, nil, "DELETE", "POST"); a.Clean() },
-			func() { zzServeQuiet(b, "GET", "/k/5"); zzServeQuiet(b, "OPTIONS", "*"); zzServeQuiet(b, "PUT", "/k/5") },
+			func() {
+				zzServeQuiet(b, "GET", "/k/5")
+				zzServeQuiet(b, "OPTIONS", "*")
+				zzServeQuiet(b, "PUT", "/k/5")
+			},
 		)
 		zzv.Cover("par-build-and-serve")
 	case 3: // two routers built from the same Option values: one is being built while the other serves
@@ -252,10 +259,14 @@ func ZZC07Nested(n int) {
 	r.Handle("/u/{id}", &hnd{id: 1}, nil, "GET")
 	r.Handle("/k/{pid}", &hnd{id: 2}, nil, "GET")
 	zzNestR, zzNestDepth, zzNestBad = r, 0, false
-	if zzv.Choice("group-first", 2) == 1 {
+	if c := zzv.Choice("group-first", 3); c >= 1 {
 		g := NewGroup[*hnd](zzCall, &hnd{id: id404}, zzB405, zzBOpt)
+		if c == 2 {
+			g = NewGroup[*hnd](zzCall, &hnd{id: id404}, zzB405, zzBOpt, WithStatusRecovery(500))
+		}
 		g.New("g", NewPathVersion("v", "v1")).Handle("/q/{k}", &hnd{id: 7}, nil, "GET")
 		zzServe(g, zzReq("GET", "/v1/q/1"))
+		zzServe(g, zzReq("GET", "/nope")) // the group's own 404: no router accepts
 	}
 	v := zzv.Bytes("v", n)
 	o, _ := zzServe(r, zzReq("GET", "/u/"+v))
